@@ -431,19 +431,22 @@ class Formatter:
 
         parent = d.scope_stack[-1]
 
-        if not isinstance(parent, Proto):
-            # Member of Non-Proto scopes: message, enum etc.
+        if not isinstance(parent, self.scopes_with_namespace()):
+            # Member of scopes without a namespace: enum fields etc.
             return definition_name
 
         if not self.support_import_as_member():
             return definition_name
 
-        if not parent.scope_stack:
-            # `parent` is the top proto.
+        # The proto where this definition is declared, directly or nested in messages.
+        proto = [scope for scope in d.scope_stack if isinstance(scope, Proto)][-1]
+
+        if not proto.scope_stack:
+            # `proto` is the top proto.
             return definition_name
-        # `parent` is imported in another proto.
+        # `proto` is imported in another proto.
         return self.delimer_cross_proto().join(
-            [self._get_definition_name(parent), definition_name]
+            [self._get_definition_name(proto), definition_name]
         )
 
     @final
